@@ -800,13 +800,18 @@ func ruleShutdown(c *Ctx) {
 	c.Check("SHUTDOWN", short(f)+":table-close-deferred-before-loop", p.Pos(f.Pos()), okDefer, "the datagram loop does not defer the association table's Close before its receive loop: on listener shutdown associations are not expired and their goroutines and sockets linger")
 	cl := m.closeAll
 	okLoop := false
-	for _, l := range eng.Loops(cl) {
+	var allLoops []*eng.Loop
+	for _, g := range regionFns(c, cl, nil, 1) {
+		allLoops = append(allLoops, eng.Loops(g)...)
+	}
+	tableOpts := eng.OriginOpts{ThroughConvert: true, Interproc: true, Stop: func(v ssa.Value) bool { return eng.IsFieldLoad(v, m.mapT, m.mapField) }}
+	for _, l := range allLoops {
 		hasNext, hasDeadline := false, false
 		var dl ssa.Instruction
 		for b := range l.Body {
 			for _, ins := range b.Instrs {
 				if nx, ok := ins.(*ssa.Next); ok {
-					if rg, ok := nx.Iter.(*ssa.Range); ok && p.AnyFrom(rg.X, eng.Plain, func(v ssa.Value) bool { return eng.IsFieldLoad(v, m.mapT, m.mapField) }) {
+					if rg, ok := nx.Iter.(*ssa.Range); ok && p.AnyFrom(rg.X, tableOpts, func(v ssa.Value) bool { return eng.IsFieldLoad(v, m.mapT, m.mapField) }) {
 						hasNext = true
 					}
 				}
